@@ -7,14 +7,15 @@
 #include "cstl/heap.h"
 
 #include <string.h>
+#include <stdlib.h>
 
-enum { H_PUSH = 1, H_POP, H_GET, H_CLEAR, H_SWAP };
+enum { H_PUSH = 1, H_POP, H_GET, H_CLEAR, H_SWAP, H_HUGE };
 
 static const char *h_opname(int k)
 {
     switch (k) {
     case H_PUSH: return "push"; case H_POP: return "pop"; case H_GET: return "get";
-    case H_CLEAR: return "clear"; case H_SWAP: return "swap";
+    case H_CLEAR: return "clear"; case H_SWAP: return "swap"; case H_HUGE: return "huge";
     }
     return "?";
 }
@@ -150,6 +151,62 @@ static void clear_cb(void *obj, void *priv)
 
 static void tick(int h) { if (mh[h].since_clear >= 0 && mh[h].since_clear < 100) mh[h].since_clear++; }
 
+/* very large heaps: slot navigation from the size alone (find-last-set, bit walks) has size-dependent paths that only
+ * show beyond 2^8 / 2^16 elements. Push n, pop half, push a quarter, pop everything; every pop must be a maximum. */
+static uint64_t huge_walk(const struct cstl_bintree_node *n, const struct cstl_bintree_node *parent, uint64_t pos, uint64_t size, int depth, struct helem *pool, size_t np)
+{
+    struct helem *e;
+    if (n == NULL) return 0;
+    if (depth > 40 || pos > size) VIOL(0, "complete", "huge heap: a node sits at level-order slot %llu of %llu (tree not complete)", (unsigned long long)pos, (unsigned long long)size);
+    e = (struct helem *)((char *)n - hoff(0) - offsetof(struct cstl_heap_node, bn));
+    if (e < pool || e >= pool + np) VIOL(0, "foreign_node", "huge heap: a reachable node is not an element");
+    if (n->p != parent) VIOL(0, "parent_link", "huge heap: a parent link is wrong");
+    if (parent && ((struct helem *)((char *)parent - hoff(0) - offsetof(struct cstl_heap_node, bn)))->prio < e->prio) VIOL(0, "heap_order", "huge heap: a child is above its parent");
+    return 1 + huge_walk(n->l, n, pos * 2, size, depth + 1, pool, np) + huge_walk(n->r, n, pos * 2 + 1, size, depth + 1, pool, np);
+}
+
+static void huge_heap(uint64_t nsel, uint64_t seed)
+{
+    static const size_t bases[] = { 255, 256, 257, 4095, 4097, 65535, 65536, 65537, 70000, 131073 };
+    size_t n = bases[nsel % 10], extra = n / 4, np = n + extra, i, live = 0, pushed = 0;
+    struct helem *pool = malloc(np * sizeof *pool);
+    uint64_t x = seed; int prev; static void *ret;
+    int phase;
+    if (!pool) sim_harness_bug("heap: no memory for a huge heap");
+    hkind[0] = 0; cur_h = 0;
+    cstl_heap_init(&hp[0], cmp_prio, NULL, hoff(0));
+    g_cur_ctx = n > 60000 ? "size-above-2^16" : n > 4000 ? "size-above-2^12" : "size-above-2^8";
+    for (phase = 0; phase < 4; phase++) {
+        size_t cnt = phase == 0 ? n : phase == 1 ? n / 2 : phase == 2 ? extra : live;
+        prev = 1 << 30;
+        for (i = 0; i < cnt; i++) {
+            if (phase == 0 || phase == 2) {
+                struct helem *e = &pool[pushed++];
+                e->magic = MAGIC; e->tail = ~MAGIC; e->id = 0; e->heap = 0; e->mark = 0; e->prio = (int)(splitmix64(&x) % 5000);
+                g_inlib = 1; cstl_heap_push(&hp[0], e); g_inlib = 0;
+                live++;
+            } else {
+                struct helem *e;
+                TRY(ret = cstl_heap_pop(&hp[0]));
+                if (g_aborted) VIOL(0, g_aborted == 2 ? "assert" : "abort", "pop on a heap of %zu aborted", live);
+                e = ret;
+                if (e == NULL || e < pool || e >= pool + np || e->id != 0) VIOL(0, "pop_foreign", "pop on a heap of %zu returned NULL, a foreign pointer or an element twice", live);
+                e->id = 1;
+                if (e->prio > prev) VIOL(0, "pop_max", "pop on a heap of %zu returned priority %d after %d: an earlier pop was not a maximum", live, e->prio, prev);
+                prev = e->prio; live--;
+            }
+        }
+        if (cstl_heap_size(&hp[0]) != live) VIOL(0, "size", "huge heap reports size %zu, reference has %zu", cstl_heap_size(&hp[0]), live);
+        if (huge_walk(hp[0].bt.root, NULL, 1, live, 0, pool, np) != live) VIOL(0, "reachable_count", "huge heap: reachable nodes do not match size %zu", live);
+    }
+    TRY(ret = cstl_heap_pop(&hp[0]));
+    if (ret != NULL) VIOL(0, "pop_empty", "pop on the emptied huge heap returned non-NULL");
+    free(pool);
+    PROBE(n > 60000 ? "huge_heap_2^16" : "huge_heap");
+    EVT("huge", n, 0, 0);
+    if (n > maxreach) maxreach = (unsigned)n;
+}
+
 static void h_exec(const plan_t *p)
 {
     struct simheap_cfg hc = { RP_MOVE, 0, (unsigned char)p->cfg[CF_JUNK] };
@@ -175,6 +232,13 @@ static void h_exec(const plan_t *p)
         static struct helem *e; static void *ret;
         g_run.step = k; g_run.opkind = o->kind; g_run.steps++;
         g_cur_prop = prop_of(h); g_cur_ctx = ctx_of(h);
+        if (o->kind == H_HUGE) {
+            g_cur_prop = "C07";
+            huge_heap(o->a[1], o->a[2]);
+            hkind[0] = (int)(p->cfg[CF_CLEARFREES] >> 4 & 1);
+            cstl_heap_init(&hp[0], cmp_prio, NULL, hoff(hkind[0]));
+            continue;
+        }
 
         switch (o->kind) {
         case H_PUSH:
@@ -267,7 +331,14 @@ static void h_gen(prng_t *r, int mode, plan_t *p)
     int longrun = prng_chance(r, 1, 10), small = !longrun && prng_chance(r, 1, 5);
     int nops = longrun ? 600 + (int)prng_below(r, 1800) : small ? 2 + (int)prng_below(r, 8) : 10 + (int)prng_below(r, 70);
     unsigned w_clear = mode == 15 ? 10 : 1;
-    unsigned push_w = longrun ? 55 + (unsigned)prng_below(r, 25) : 35 + (unsigned)prng_below(r, 30);    /* per-run push/pop balance */
+    unsigned push_w;
+    if (mode == 107) {
+        op_t *o = plan_add(p, H_HUGE);
+        p->cfg[CF_NH] = 1; p->cfg[CF_PRIOS] = 1; p->cfg[CF_JUNK] = 1 + prng_below(r, 254); p->cfg[CF_MAXN] = 4;
+        o->a[1] = prng_next(r); o->a[2] = prng_next(r);
+        return;
+    }
+    push_w = longrun ? 55 + (unsigned)prng_below(r, 25) : 35 + (unsigned)prng_below(r, 30);    /* per-run push/pop balance */
     int i;
     p->cfg[CF_NH] = 1 + prng_below(r, 2);
     p->cfg[CF_PRIOS] = small ? 1 + prng_below(r, 3) : 1 + prng_below(r, 40);
